@@ -11,6 +11,8 @@ import (
 	"fmt"
 	"net"
 	"time"
+
+	"github.com/free5gc/go-upf/internal/report"
 )
 
 type MsgIntent struct {
@@ -99,23 +101,29 @@ type Dgram struct {
 
 // UpReq is a request the UPF sent (Session Report Request) as seen on the wire.
 type UpReq struct {
-	N        int
-	Dst      string
-	Seq      uint32
-	CPSEID   uint64
-	B        []byte
-	Sends    []time.Duration
-	Answered bool // a matching response has been delivered to the UPF
-	AnsTried bool
+	N         int
+	Dst       string
+	Seq       uint32
+	CPSEID    uint64
+	B         []byte
+	Sends     []time.Duration
+	Answered  bool // a matching response has been delivered to the UPF
+	AnsTried  bool
 	abCounted bool
-	SMF      int
-	Msg      *PMsg
+	SMF       int
+	Msg       *PMsg
 }
 
 func (s *Sim) setupSMFs() {
 	for i := 0; i < s.cfg.NSMF; i++ {
 		ip := fmt.Sprintf("10.1.0.%d", i+1)
 		m := &SMF{Idx: i, NodeID: ip, Seq: 1}
+		if s.cfg.FQDNMask&(1<<i) != 0 {
+			// this peer names itself by FQDN: the UPF must resolve the name (through the
+			// simulator's resolver, rule R8) to find where its reports go
+			m.NodeID = fmt.Sprintf("smf%d.cp.sim", i+1)
+			s.names[m.NodeID] = net.ParseIP(ip).To4()
+		}
 		m.Rep = udpAddr(ip + ":8805")
 		m.Src = m.Rep
 		if i == 3 { // a peer behind a port translator: its requests do not come from :8805
@@ -170,7 +178,7 @@ func (s *Sim) build(m *SMF, in *MsgIntent) []byte {
 			pm.IEs = append(pm.IEs, nodeIDv4(node))
 		}
 		if !in.NoFSEID {
-			pm.IEs = append(pm.IEs, fseidV4(in.CPSEID, m.NodeID))
+			pm.IEs = append(pm.IEs, fseidV4(in.CPSEID, m.Rep.IP.String()))
 		}
 		for i := range in.Create {
 			pm.IEs = append(pm.IEs, in.Create[i].createTLV())
@@ -326,6 +334,10 @@ func (s *Sim) step(a Action) {
 		if a.KBuf != nil {
 			s.mstep("kbuf", nil, func() { s.doKBuf(a.KBuf) })
 		}
+	case "detach":
+		if a.KBuf != nil {
+			s.detach(a.KBuf, a.N)
+		}
 	case "fwdrep":
 		s.mstep("fwdrep", nil, func() {
 			s.forwardReport(a.N)
@@ -402,6 +414,62 @@ func (s *Sim) doKBuf(k *KBufIntent) {
 		s.logEvent("kbuf seid=%#x pdr=%d act=%#x tag=%d len=%d", seid, k.PDR, k.Action, tag, len(pkt))
 		s.settle()
 	}
+}
+
+// detach starts a data-plane producer that owes the simulator nothing after this point: it
+// is told now which notification to hand up and when (simulated time), and then runs on
+// its own goroutine. The lock-step scheduler orders every goroutine it waits for before
+// whatever it does next (synctest.Wait is an acquire for the race detector), which would
+// hide a producer touching event-loop state; a detached producer acquires nothing after
+// its start, so its accesses stay unordered with the event loop's, as they are in
+// production where the netlink goroutines share only channels with the loop.
+func (s *Sim) detach(k *KBufIntent, delayNs int) {
+	seid, _ := s.resolveSEID(k.SMF, k.Slot, k.SEID)
+	n := k.Count
+	if n < 1 {
+		n = 1
+	}
+	var srs []report.SessReport
+	for i := 0; i < n; i++ {
+		pkt := makePayload(s.model.nextPktTag(), k.Len)
+		srs = append(srs, report.SessReport{SEID: seid, Reports: []report.Report{
+			report.DLDReport{PDRID: k.PDR, Action: k.Action, BufPkt: pkt}}})
+	}
+	s.probe("detached.producer", 1)
+	s.logEvent("detach seid=%#x pdr=%d act=%#x n=%d after=%dns", seid, k.PDR, k.Action, n, delayNs)
+	srv := s.srv
+	if srv == nil {
+		return
+	}
+	// Each notification gets an odd nanosecond of its own (see bump), also clear of the
+	// retransmission instants of the requests earlier notifications may have caused: two
+	// timers of one instant would fire in an order the simulator does not decide.
+	now := int64(s.since())
+	at := now + int64(delayNs)
+	if at%2 == 0 {
+		at++
+	}
+	var waits []time.Duration
+	prev := now
+	for range srs {
+		for s.detBusy[at] {
+			at += 2
+		}
+		for k := int64(0); k <= int64(s.cfg.MaxRetrans)+1; k++ {
+			s.detBusy[at+k*int64(s.cfg.RetransMs)*int64(time.Millisecond)] = true
+		}
+		waits = append(waits, time.Duration(at-prev))
+		prev = at
+		at += 2
+	}
+	s.detWG.Add(1)
+	go func() {
+		defer s.detWG.Done()
+		for i, sr := range srs {
+			time.Sleep(waits[i])
+			srv.NotifySessReport(sr)
+		}
+	}()
 }
 
 // makePayload builds a recognisable packet: 8-byte tag, then a pattern.
